@@ -51,7 +51,8 @@ def main(argv):
         chk = get_check(a.id)
         if a.replay:
             return runner.replay(chk, a.replay)
-        return runner.run_check(chk, a.tier, seed, wall_budget=a.budget)
+        budget = a.budget if a.budget is not None else (900.0 if a.tier == "quick" else 3 * 3600.0)
+        return runner.run_check(chk, a.tier, seed, wall_budget=budget)
     except simkernel.HarnessError as e:
         print("HARNESS ERROR: %s" % e)
         return 2
